@@ -14,7 +14,7 @@ from . import core, dftlib as D, modq, polylib as PL, qpolylib as QL
 PROP = 'C09'
 THETAS = [0.0, 0.35, 1.2, -2.0]
 SVECS = [(2,), (1, -1), (0, 3), (1, 2, -1), (0, 0, 2), (3, 0, -2, 1), (1, -1, 2, 0, 3)]
-CL_PARAMS = {'quick': [((0, 1), (0, 1)), ((1, 1), (4, 1)), ((-1, 2), (1, 2)), ((0, 1), (4, 1))],
+CL_PARAMS = {'quick': [((0, 1), (0, 1)), ((1, 1), (4, 1)), ((-1, 2), (1, 2)), ((0, 1), (4, 1)), ((-1, 4), (-3, 4))],
              'thorough': [((0, 1), (0, 1)), ((1, 1), (4, 1)), ((-1, 2), (1, 2)), ((0, 1), (4, 1)), ((-1, 2), (-1, 2)), ((3, 2), (0, 1)), ((-1, 4), (-3, 4))]}
 CL_XS = [(-1, 2), (1, 3), (1, 1), (-7, 8)]
 
@@ -190,10 +190,14 @@ def replay_q_sums(T, ocon, ctx, np, P, svecs):
             continue
         c = np.array(cs, dtype=float)
         ln = 'len=1' if len(cs) == 1 else ('len=2' if len(cs) == 2 else 'len>=3')
-        for th in (0.3, -1.9):
+        for th, ragged in ((0.3, False), (-1.9, False), (0.7, True)):
             t = np.full_like(u, th)
             ams = [list(c * (1 + 0.5 * m)) for m in range(1, mmax + 1)]
             bms = [list(c[::-1] * (1 - 0.25 * m)) for m in range(1, mmax + 1)]
+            if ragged:
+                # ragged azimuthal support: a family that is present at one m is absent (an empty list) at the next
+                ams = [v if m % 2 else [] for m, v in enumerate(ams, 1)]
+                bms = [v if m % 2 == 0 or m == mmax else [] for m, v in enumerate(bms, 1)]
             z = sum(c[n] * np.array(T[0][n]['vals'])[inner] for n in range(len(c)))
             dr = sum(c[n] * np.array(T[0][n]['ders'])[inner] for n in range(len(c)))
             dt = np.zeros_like(u)
@@ -201,7 +205,8 @@ def replay_q_sums(T, ocon, ctx, np, P, svecs):
                 for n in range(len(c)):
                     R = np.array(T[m][n]['vals'])[inner]
                     dR = np.array(T[m][n]['ders'])[inner]
-                    ca, cb = ams[m - 1][n], bms[m - 1][n]
+                    ca = ams[m - 1][n] if ams[m - 1] else 0.0
+                    cb = bms[m - 1][n] if bms[m - 1] else 0.0
                     z = z + R * (ca * math.cos(m * th) + cb * math.sin(m * th))
                     dr = dr + dR * (ca * math.cos(m * th) + cb * math.sin(m * th))
                     dt = dt + R * m * (-ca * math.sin(m * th) + cb * math.cos(m * th))
@@ -215,8 +220,9 @@ def replay_q_sums(T, ocon, ctx, np, P, svecs):
             except Exception as ex:
                 fails.append(('compute_z_zprime_Q2d:raised:%s' % ln, '%s: %s' % (type(ex).__name__, ex)))
             ctx.replayed(1, key=('q2dsum', tuple(cs), th))
+            ln_ = ln + (':ragged' if ragged else '')
             for kind, msg in fails:
-                ctx.fail('Der:%s' % kind, 'coefs=%s theta=%g: %s' % (list(cs), th, msg[:500]), {'coefs': list(cs), 'theta': th})
+                ctx.fail('Der:%s%s' % (kind, ':ragged' if ragged else ''), 'coefs=%s theta=%g%s: %s' % (list(cs), th, ' ragged a/b families' if ragged else '', msg[:500]), {'coefs': list(cs), 'theta': th})
         # clenshaw_q2d_der of any order, per azimuthal order
         for m in range(1, mmax + 1):
             N = len(c) - 1
